@@ -103,7 +103,7 @@ func stubParseCRL18(der []byte) (*x509.RevocationList, error) {
 func H_C18_download() {
 	client := &http.Client{}
 	u := rt.AtomString("url")
-	c, err := fetchCRL(context.Background(), u, client)
+	c, err := fetchCRL(rt.EnvContext{Tag: "caller"}, u, client)
 	rt.Assert((c == nil) != (err == nil), "C18.dl.result.xor.error")
 	if gotResp18 {
 		rt.Assert(closed18, "C18.dl.body.closed")
